@@ -143,8 +143,11 @@ def run(prop, ev):
                 except engine.EngineError:
                     return {'mutant': m['id'], 'kind': m.get('kind'), 'status': 'skipped (does not compile on the current tree)'}, None
                 with RULES_LOCK:    # rule modules keep module-level scratch state: evaluate one program at a time
-                    code, _, mev, ctx = engine.run_property(prop, 'thorough', prog=prog, write=False)
-                fired = sorted({i.rule for i in ctx.insts if not i.ok})
+                    code, rlines, mev, ctx = engine.run_property(prop, 'thorough', prog=prog, write=False)
+                import re as _re
+                # a rule that lost its anchor fails closed (a VIOLATION of ./check): that counts as fired here too
+                lost = {m2.group(1) for ln in rlines for m2 in [_re.search(r'rule (C\d+\.[A-Za-z0-9]+):', ln)] if m2}
+                fired = sorted({i.rule for i in ctx.insts if not i.ok} | lost)
                 if m.get('kind') == 'benign':
                     if fired:
                         return ({'mutant': m['id'], 'kind': 'benign', 'status': 'FALSE-ALARM', 'fired': fired},
